@@ -25,7 +25,7 @@ INVARIANT Report
 CHECK_DEADLOCK FALSE
 """
 
-PATHS = ["dd", "sd", "ds", "ss", "comp", "compS", "compDS", "compSD"]
+PATHS = ["dd", "sd", "ds", "ss", "comp", "compS", "compDS", "compSD", "ds.method", "sd.operator", "ss.operator"]
 
 
 def _sp(F):
@@ -57,6 +57,15 @@ def product(path, FA, FB):
         return _sp_dense(C), tuple(C.shape)
     if path == "ss":
         C = u.quat_matmat(_sp(FA), _sp(FB))
+        return _sp_dense(C), tuple(C.shape)
+    if path == "ds.method":      # dense x sparse through the container's own method
+        C = _sp(FB).left_multiply(q_from_float(FA))
+        return (_sp_dense(C) if hasattr(C, "real") and hasattr(C, "k") else q_to_float(np.asarray(C))), tuple(C.shape)
+    if path == "sd.operator":    # the container's @ operator
+        C = _sp(FA) @ q_from_float(FB)
+        return q_to_float(np.asarray(C)), C.shape
+    if path == "ss.operator":
+        C = _sp(FA) @ _sp(FB)
         return _sp_dense(C), tuple(C.shape)
     if path == "comp":
         C = u.timesQsparse(*[np.ascontiguousarray(FA[..., c]) for c in range(4)],
@@ -154,6 +163,26 @@ def _replay_state(st):
         n += 1
         if not np.array_equal(lhs, rhs):
             fails.append(("quat_hermitian." + fmt, "HermReverses", {"A": st["A"], "B": st["B"]}))
+    # the sparse container's own conjugate / transpose / real-scalar multiples (a real scalar c acts as c*I)
+    spA = _sp(FA.copy())
+    conjA = FA * [1.0, -1.0, -1.0, -1.0]
+    for name, got, want in (("SparseQuaternionMatrix.conjugate", lambda: _sp_dense(spA.conjugate()), conjA),
+                            ("SparseQuaternionMatrix.transpose", lambda: _sp_dense(spA.transpose()), np.transpose(FA, (1, 0, 2))),
+                            ("SparseQuaternionMatrix.conjugate.transpose", lambda: _sp_dense(spA.conjugate().transpose()), expAH),
+                            ("SparseQuaternionMatrix.__mul__(int)", lambda: _sp_dense(spA * 3), FA * 3),
+                            ("SparseQuaternionMatrix.__mul__(float)", lambda: _sp_dense(spA * -0.5), FA * -0.5),
+                            ("SparseQuaternionMatrix.__rmul__(np.float64)", lambda: _sp_dense(np.float64(4.0) * spA), FA * 4.0)):
+        n += 1
+        try:
+            G = got()
+            okc = G.shape == want.shape and np.array_equal(G, want)
+            G = None if okc else G.tolist()
+        except Exception as e:
+            okc, G = False, "exception %r" % (e,)
+        if not okc:
+            fails.append((name, "ProductIsHamilton" if "mul" in name else "HermIsConjTranspose", {"A": st["A"], "ea": ea, "got": G}))
+    if not np.array_equal(_sp_dense(spA), FA):
+        fails.append(("SparseQuaternionMatrix", "OperandsUnchanged", {"A": st["A"], "ea": ea}))
     f2 = st["out"]["froA"]
     for name, v in fro_all(FA).items():
         n += 1
